@@ -33,6 +33,8 @@ type Program struct {
 	deep       bool // deps loaded with syntax
 	allPkgs    []*packages.Package
 	embedders  map[*types.TypeName][]*types.Named
+	leaveMemo  *[]*Func
+	synthSel   map[*ast.SelectorExpr]*types.Var // selections synthesized by the engine (partAssign) -> the field
 	roleVar    map[roleKey]*types.Var // role -> the field that plays it under another name / on a sub-struct
 	roleName   map[*types.Var]string  // such a field -> the role's (canonical) name
 }
@@ -405,6 +407,18 @@ func isRepoPkg(pkg *types.Package) bool {
 // else is glue whose effects must be visible in its callers' paths, so that wrapping primitives in a
 // new (even exported, even cross-package) function does not hide what a path does.
 func (p *Program) isGlue(f *types.Func) bool {
+	if !p.isGlueRaw(f) {
+		return false
+	}
+	for _, l := range p.leaveFuncs() {
+		if l.Obj == f {
+			return false
+		}
+	}
+	return true
+}
+
+func (p *Program) isGlueRaw(f *types.Func) bool {
 	if f == nil || f.Pkg() == nil || !isRepoPkg(f.Pkg()) {
 		return false
 	}
